@@ -28,7 +28,8 @@ PRICES = [1.01, 1.5, 2.0, 2.02, 2.5, 3.0, 3.35, 4.1, 5.0, 7.4, 10.0, 21.0, 34.0,
 
 
 def gen_opts(rng):
-    return {"p_close": 1.0, "p_removal": 0.3, "p_inplay": 0.3, "clients": rng.choice([1, 2]), "p_act": 0.8, "p_handicap": 0.2, "p_reopen": 0.1, "p_each_way": 0.25}
+    return {"p_close": 1.0, "p_removal": 0.3, "p_inplay": 0.3, "clients": rng.choice([1, 2]), "p_act": 0.8, "p_handicap": 0.2, "p_reopen": 0.1, "p_each_way": 0.25,
+            "p_two_winners": 0.25}     # place markets paying two places: a close with exactly two winners is NOT a dead heat
 
 
 def spec_profit(side, fills, result, n_dead=1, mtype="WIN", divisor=None, line=None, line_result=None):
